@@ -555,7 +555,22 @@ def z2rank(mat):
         mat is destroyed upon output!
     Returns:
     r: int - rank of the matrix under Z2 algebra.'''
-    return torch.linalg.matrix_rank(mat.to(torch.float32))
+    mat = torch.remainder(mat.to(torch.float32), 2) # work on a copy
+    nr, nc = mat.shape[0], mat.shape[1]
+    r = 0 # current row index
+    for i in range(nc): # run through cols
+        if r < nr:
+            pivots = torch.nonzero(mat[r:, i])
+            if pivots.shape[0] > 0:
+                k = r + int(pivots[0, 0]) # pivot found in row k
+                if k != r: # swap rows r, k
+                    tmp = mat[r].clone()
+                    mat[r] = mat[k]
+                    mat[k] = tmp
+                below = mat[r+1:, i].clone()
+                mat[r+1:] = torch.remainder(mat[r+1:] + below.unsqueeze(1) * mat[r].unsqueeze(0), 2)
+                r += 1 # rank inc
+    return torch.tensor(r)
 
 
 @torch.jit.script
